@@ -1,11 +1,11 @@
 SPECIFICATION Spec
 CONSTANTS
-  N = 1
-  Kinds <- K1e
+  N = 3
+  Kinds <- K3
   Units = 2
   Cap = 1
   DropParentCloseW = FALSE
-  FailAt = 0
+  FailAt = 4
   LateFail = "clean"
   HereAt = 0
   HereUnits = 0
